@@ -35,18 +35,20 @@ ByOf(e) == 1 + (e % 2)
 S(a, e) == [a |-> a, e |-> e]
 
 \* ---- the operations as step lists ---------------------------------------------------------------
+If(c) == {x \in {1} : c}      \* {1} if c holds, else {}
 Ops ==
-    {[op |-> "Attach", e |-> 0, mode |-> "", steps |-> <<S("AttachStart", 0), S("AttachLin", 0), S("AttachEnd", 0)>>] : x \in {1} \cap {y \in {1} : astate[S1] = "new"}}
+    {[op |-> "Attach", e |-> 0, mode |-> "",
+      steps |-> <<S("AttachStart", 0), S("AttachLin", 0), S("AttachEnd", 0)>>] : x \in If(astate[S1] = "new")}
     \cup {[op |-> "Detach", e |-> 0, mode |-> "",
            steps |-> <<S("DetachStart", 0), S("DetachLin", 0), S("Drain", 0), S("WFlush", 0), S("WClose", 0), S("DetachEnd", 0)>>]
-            : x \in {y \in {1} : astate[S1] = "held"}}
+            : x \in If(astate[S1] = "held")}
     \cup {[op |-> "Flush", e |-> NextF, mode |-> "",
            steps |-> <<S("FlushReq", NextF), S("Drain", 0), S("WFlush", 0), S("FlushDone", NextF)>>]
-            : x \in {y \in {1} : NextF <= 2}}
+            : x \in If(NextF <= 2)}
     \cup {[op |-> "Try", e |-> NextReq, mode |-> "try",
            steps |-> <<S("ReqStart", NextReq), S("Work", NextReq), S("TryStart", NextReq), S("TryLin", NextReq),
                        S("QLin", NextReq), S("TryEnd", NextReq)>>]
-            : x \in {y \in {1} : NextReq <= MaxReq /\ "try" \in RModes}}
+            : x \in If(NextReq <= MaxReq /\ "try" \in RModes)}
     \cup {[op |-> "Open", e |-> NextReq, mode |-> m,
            steps |-> <<S("ReqStart", NextReq), S("SinkStart", NextReq), S("SinkLin", NextReq), S("SinkEnd", NextReq),
                        S("Work", NextReq)>>]
